@@ -32,7 +32,20 @@ static void chain(int Z, double E, int v, double *P, int *ok) {
   default: CASC(full) break;
   }
 }
+/* "c08 bounds": the elements at which the set of available primitives changes -- first and last element (and their outer neighbours) for which each
+ * Coster-Kronig probability, fluorescence yield, Auger yield, jump factor and K..M5 edge has a value.  The quick tier always includes them. */
+static void bound_of(const char *what, int idx, double (*f)(int, int, xrl_error **)) {
+  int lo = 0, hi = 0; for (int Z = 1; Z <= 120; Z++) { double v = f(Z, idx, NULL); if (v > 0) { if (!lo) lo = Z; hi = Z; } }
+  if (lo) fprintf(OUT, "{\"k\":\"bound\",\"what\":\"%s\",\"idx\":%d,\"lo\":%d,\"hi\":%d}\n", what, idx, lo, hi);
+}
+static double kissel_any(int Z, int shell, xrl_error **e) { double ed = EdgeEnergy(Z, shell, NULL); return ed > 0 ? CS_Photo_Partial(Z, shell, ed + 1.0, e) : 0.0; }
+static int cmd_c08_bounds(void) {
+  for (int t = 1; t <= 14; t++) bound_of("ck", t, CosKronTransProb);
+  for (int sh = 0; sh < 9; sh++) { bound_of("yield", sh, FluorYield); bound_of("augeryield", sh, AugerYield); bound_of("jump", sh, JumpFactor); bound_of("edge", sh, EdgeEnergy); bound_of("partial", sh, kissel_any); }
+  return 0;
+}
 int cmd_c08(int argc, char **argv) {
+  if (argc > 0 && !strcmp(argv[0], "bounds")) return cmd_c08_bounds();
   int zlo = argc > 0 ? atoi(argv[0]) : 0, zhi = argc > 1 ? atoi(argv[1]) : 121; int thorough = argc > 2 && !strcmp(argv[2], "thorough");
   static const f3 SH[] = {CS_FluorShell_Kissel, CS_FluorShell_Kissel_Cascade, CS_FluorShell_Kissel_Nonradiative_Cascade, CS_FluorShell_Kissel_Radiative_Cascade, CS_FluorShell_Kissel_no_Cascade,
                           CSb_FluorShell_Kissel, CSb_FluorShell_Kissel_Cascade, CSb_FluorShell_Kissel_Nonradiative_Cascade, CSb_FluorShell_Kissel_Radiative_Cascade, CSb_FluorShell_Kissel_no_Cascade};
